@@ -67,14 +67,15 @@ def same(a, b, conds):
 GETTERS = ["study.trials", "study.get_trials(deepcopy=False)", "study.get_trials(deepcopy=True)", "storage.get_trial",
            "storage.get_all_trials(deepcopy=False)", "storage.get_all_trials(states)", "study.best_trial",
            "study.user_attrs", "study.system_attrs", "trial.params", "trial.distributions", "trial.user_attrs", "trial.system_attrs",
-           "frozen-from-tell"]
+           "frozen-from-tell", "study.get_trials(states=(WAITING,))", "storage.get_all_trials(states=(WAITING,), deepcopy=False)",
+           "study.get_trials(states=[WAITING, RUNNING])"]
 
 SETTERS = ["trial.suggest_float(new)", "trial.suggest_int(new)", "trial.suggest_categorical(new)", "trial.suggest_float(same)",
            "trial.report", "trial.set_user_attr(same key)", "trial.set_user_attr(new key)", "trial.set_system_attr",
            "study.tell(trial)", "study.tell(trial, PRUNED)", "study.set_user_attr(same key)", "study.set_user_attr(new key)",
            "study.set_system_attr", "study.enqueue_trial", "study.add_trial", "study.ask", "storage.set_trial_param",
            "storage.set_trial_user_attr", "storage.set_trial_intermediate_value", "storage.set_trial_state_values(FAIL)",
-           "other.set_user_attr", "other.suggest_float"]
+           "other.set_user_attr", "other.suggest_float", "study.ask+suggest(queued)"]
 
 
 def run_setter(name, study, trial, other, i):
@@ -123,6 +124,10 @@ def run_setter(name, study, trial, other, i):
         st.set_trial_intermediate_value(trial._trial_id, 0, 9.0)
     elif name == "storage.set_trial_state_values(FAIL)":
         st.set_trial_state_values(trial._trial_id, TrialState.FAIL)
+    elif name == "study.ask+suggest(queued)":
+        t = study.ask()                      # claims the WAITING trial
+        t.suggest_float("x", 0, 1)
+        t.set_user_attr("queued", "claimed")
     elif name == "other.set_user_attr":
         other.set_user_attr("u", "other")
     elif name == "other.suggest_float":
@@ -145,6 +150,7 @@ def seed(kind, symbolic_values):
     trial.set_user_attr("u", {"k": [1, 2]})
     trial.report(sx.sym_real("t_iv") if symbolic_values else 0.75, 0)
     other = study.ask()
+    study.enqueue_trial({"x": 0.125}, user_attrs={"queued": [1]})      # stays WAITING
     return storage, study, trial, other
 
 
@@ -162,6 +168,14 @@ def get_objects(g, storage, study, trial, other):
         return storage.get_all_trials(sid, deepcopy=False)
     if g == "storage.get_all_trials(states)":
         return storage.get_all_trials(sid, deepcopy=False, states=(TrialState.RUNNING,))
+    if g == "study.get_trials(states=(WAITING,))":
+        return study.get_trials(deepcopy=True, states=(TrialState.WAITING,))
+    if g == "storage.get_all_trials(states=(WAITING,), deepcopy=False)":
+        return storage.get_all_trials(sid, deepcopy=False, states=(TrialState.WAITING,))
+    if g == "study.get_trials(states=[WAITING, RUNNING])":
+        return study.get_trials(deepcopy=True, states=[TrialState.WAITING, TrialState.RUNNING])
+    if g == "storage.get_all_trials(deepcopy=True, states=(WAITING,))":
+        return storage.get_all_trials(sid, deepcopy=True, states=(TrialState.WAITING,))
     if g == "study.best_trial":
         return [study.best_trial]
     if g == "study.best_trials":
@@ -224,7 +238,9 @@ def make_deepcopy_body(backends):
         kind = sx.choose(backends, "backend")
         storage, study, trial, other = seed(kind, False)
         g = sx.choose(["study.trials", "study.get_trials(deepcopy=True)", "study.best_trial", "study.user_attrs", "trial.params",
-                       "trial.user_attrs", "trial.distributions", "storage.get_all_trials(deepcopy=True)", "study.best_trials"], "getter")
+                       "trial.user_attrs", "trial.distributions", "storage.get_all_trials(deepcopy=True)", "study.best_trials",
+                       "study.get_trials(states=(WAITING,))", "study.get_trials(states=[WAITING, RUNNING])",
+                       "storage.get_all_trials(deepcopy=True, states=(WAITING,))"], "getter")
         def read():
             if g == "storage.get_all_trials(deepcopy=True)":
                 return storage.get_all_trials(study._study_id, deepcopy=True)
@@ -239,6 +255,9 @@ def make_deepcopy_body(backends):
                 if isinstance(o.user_attrs.get("u"), dict):
                     o.user_attrs["u"]["d"] = "mutated"
                 o.system_attrs["mut"] = 1
+                for v in o.system_attrs.values():
+                    if isinstance(v, dict):
+                        v["x"] = 99.0
                 o.intermediate_values[0] = -5.0
                 o.distributions["x"] = optuna.distributions.FloatDistribution(5, 6)
                 o.state = TrialState.FAIL
@@ -289,7 +308,7 @@ def obligations(tier):
                    bounds=dict(backends=BACKENDS, getters=len(GETTERS), setters=len(SETTERS), setters_per_history=1),
                    shard_depth=2, budget_s=400, classify=classify, require_reach=["compared"],
                    describe="every (backend, getter, setter) triple; earlier objects must equal their snapshots"),
-        Obligation("deepcopy-mutation", make_deepcopy_body(BACKENDS), setup, CODE, bounds=dict(backends=BACKENDS, getters=9),
+        Obligation("deepcopy-mutation", make_deepcopy_body(BACKENDS), setup, CODE, bounds=dict(backends=BACKENDS, getters=12),
                    budget_s=300, classify=classify, require_reach=["compared"],
                    describe="mutating every field of deep-copied results never affects later reads"),
     ]
